@@ -111,6 +111,8 @@ def twice(make):
 def splitf(kind, d):
     if kind == 'nonemod':       # a criterion that is None for some items (a missing field)
         return lambda x: None if x % d == 0 else x % d
+    if kind == 'gkey':          # consecutive ints map to unequal criteria with EQUAL hashes (-1 / -2, ('a',-1) / ('a',-2), 0 / 2**61-1)
+        return lambda x: GKEYS[x % len(GKEYS)]
     return k_div(d) if kind == 'div' else f_mod(d)
 
 
